@@ -49,6 +49,8 @@ def const_int(op, fl=None, b=None, env=None):
                 names = [str(p_).split(":", 1)[1] for p_ in projs if ":" in str(p_)]
                 if l == 1 and len(names) == 1 and names[0] in env:
                     val[v] = env[names[0]]
+                elif not projs and ("param", l) in env:
+                    val[v] = env[("param", l)]
                 else:
                     return None
             return IE.evaluate(e, val)
@@ -56,7 +58,7 @@ def const_int(op, fl=None, b=None, env=None):
 
 
 class Knowledge:
-    def __init__(self, facts, body, parent=None, site=None, call_bb=None, env=None, input_holders=None):
+    def __init__(self, facts, body, parent=None, site=None, call_bb=None, env=None, input_holders=None, param_holders=None):
         """parent/site/call_bb: for a closure body - the Knowledge of the function that creates it, the (bb, j) of the closure
         aggregate (captures) and the block of the particular call whose arguments bind the closure's parameters"""
         self.facts = facts
@@ -67,6 +69,7 @@ class Knowledge:
         self.parent, self.site, self.call_bb = parent, site, call_bb
         self.env = env                    # {role field of self: concrete party} for protocols parameterised by roles
         self.input_holders = input_holders  # {input ordinal: frozenset(parties)} under this env
+        self.param_holders = param_holders or {}  # {param local: frozenset(parties) | "triple"} conventions of a helper's parameters
         self._closures = {}
         self._collect_sends()
 
@@ -198,6 +201,8 @@ class Knowledge:
                 continue
             elif o[0] in ("upvar", "param") and self.parent is not None:
                 k2, e2 = self._outer(o)
+            elif o[0] == "param" and isinstance(self.param_holders.get(o[1]), frozenset) and not o[2]:
+                k2, e2 = self.param_holders[o[1]], True
             else:
                 k2, e2 = frozenset(), False   # parameter / upvar / unknown: owner not known here
             seen_any = True
@@ -232,12 +237,14 @@ class Knowledge:
                 if ordinal in conv:
                     res = (conv[ordinal][0], True)
         elif short == "tuple_get" and cn.startswith("graphs::"):
-            idx = const_int(t["args"][-1], fl, b)
+            idx = const_int(t["args"][-1], fl, b, self.env)
             src = self.node_args(t)
             if idx is not None and src:
                 # component of an argument of the protocol (input) = replicated share / key triple component
                 sor = fl.origins(src[0], (bb, None))
                 if sor and all(o[0] == "call" and callee_name(b.term(o[1])) == "graphs::Graph::input" for o in sor) and 0 <= idx <= 2:
+                    res = (frozenset((idx, (idx - 1) % 3)), True)
+                elif sor and all(o[0] == "param" and self.param_holders.get(o[1]) == "triple" and not o[2] for o in sor) and 0 <= idx <= 2:
                     res = (frozenset((idx, (idx - 1) % 3)), True)
                 elif sor and all(o[0] == "call" and callee_name(b.term(o[1])) == "graphs::Graph::custom_op" for o in sor) and 0 <= idx <= 2:
                     # result of a sub-protocol: a replicated sharing, or a 3-out-of-3 one for the product protocols
@@ -275,6 +282,10 @@ class Knowledge:
         elif cn.startswith("graphs::Node::") or cn.startswith("graphs::Graph::"):
             if short in ("custom_op", "call", "iterate"):
                 res = (frozenset(), False)
+                if short == "custom_op":
+                    r_ = self.role_op(bb)
+                    if r_ is not None and r_[2] is not None:
+                        res = (r_[2], True)
             else:
                 src = self.node_args(t)
                 K, exact = ALL, True
@@ -293,6 +304,37 @@ class Knowledge:
             res = (frozenset(), False)            # helper / closure / protocol: not typed here
         self.memo[bb] = res
         return res
+
+    ROLE_OPS = {}   # filled by the rules: ADT path -> {"roles": (field, field), "inputs": {ordinal: "SRH letters"}, "output": letters}
+
+    def role_op(self, bb):
+        """for `custom_op(CustomOperation::new(RoleOp{sender_id: e1, receiver_id: e2}), args)` at block bb:
+        (spec, {letter: party}, holders of the result) with the role fields evaluated under this env; None if not such a call"""
+        b, fl = self.b, self.fl
+        t = b.term(bb)
+        for a in t["args"]:
+            if a[0] == "k":
+                continue
+            for o in fl.origins(a, (bb, None)):
+                if o[0] != "call" or not (callee_name(b.term(o[1])) or "").endswith("CustomOperation::new"):
+                    continue
+                for o2 in fl.origins(b.term(o[1])["args"][0], (o[1], None)):
+                    if o2[0] != "agg":
+                        continue
+                    key = [k_ for k_ in self.ROLE_OPS if o2[3] == k_ or o2[3].startswith(k_ + "::")]
+                    if not key:
+                        continue
+                    spec = self.ROLE_OPS[key[0]]
+                    rv = b.stmts(o2[1])[o2[2]][2]
+                    vals = {}
+                    for fname, op_ in zip(rv[1]["fields"], rv[2]):
+                        vals[fname] = const_int(op_, fl, b, self.env)
+                    s_, r_ = vals.get(spec["roles"][0]), vals.get(spec["roles"][1])
+                    if s_ is None or r_ is None or s_ == r_ or not (0 <= s_ <= 2 and 0 <= r_ <= 2):
+                        return (spec, None, None)
+                    who = {"S": s_, "R": r_, "H": 3 - s_ - r_}
+                    return (spec, who, frozenset(who[c] for c in spec["output"]))
+        return None
 
     def tuple_components(self, bb):
         """[(operand, at)] of the vec![..] given to create_tuple at block bb, in order; None if not a literal vector"""
